@@ -66,7 +66,7 @@ impl<'a> Shrinker<'a> {
                 if k >= list.len() {
                     break;
                 }
-                if matches!(list[k], Xf::Cover { .. }) {
+                if matches!(list[k], Xf::Cover { .. } | Xf::SubCover(_)) {
                     k += 1;
                     continue;
                 }
@@ -117,7 +117,7 @@ impl<'a> Shrinker<'a> {
         if in_cxf {
             return Some(first.in_size);
         }
-        if spec.xf[..k].iter().any(|s| matches!(s, Xf::Cover { .. })) {
+        if spec.xf[..k].iter().any(|s| matches!(s, Xf::Cover { .. } | Xf::SubCover(_))) {
             Some(first.sym_size)
         } else {
             Sym::parse(&spec.base).ok().map(|s| s.n)
